@@ -202,6 +202,18 @@ def topoB : List Nat → List Op → Bool
   | _, [] => true
   | named, o :: os => (named.contains o.dst || named.contains o.src) && topoB (o.dst :: named) os
 
+/-- which arm of `stepSt` / `cntLab` an operation takes in state `st` (instrumentation for the coverage report):
+copy: 0 stores first (plain) copy, 1 stores a later (`_k_`) copy, 2 target already named;
+distr: 3, 4, 5 likewise; sgive: 6 stores, 7 target already named -/
+def armOf (st : St) : Op → Nat
+  | .copy s d => if (st.get d).s = [] then (if (st.get s).n = 0 then 0 else 1) else 2
+  | .distr s d => if (st.get d).s = [] then (if (st.get s).n = 0 then 3 else 4) else 5
+  | .sgive _ _ d => if (st.get d).s = [] then 6 else 7
+
+def armCounts (st : St) (acc : List Nat) : List Op → List Nat
+  | [] => acc
+  | o :: os => armCounts (stepSt st o) (acc.modify (armOf st o) (· + 1)) os
+
 /-- every delivered cell is an initially named cell or the target of some operation
 (an item created outside of any link scope is not) -/
 def coveredB (named : List Nat) (ops : List Op) (D : List Nat) : Bool :=
@@ -368,6 +380,20 @@ def fileOffsets (file : Option (List Char)) : ReadRes :=
   | none => .ok [1]           -- names_ = { ""+1 }: nothing read
   | some [] => .ok [1]        -- empty file cannot be mapped: ignored
   | some d => readNamesFile d
+
+/-- `BasicProblem::item_name` (src/problem.cc): generated name `stub k` with `]` after a stub ending in `[`,
+otherwise `_`; index counted from `ksub` -/
+def itemName (stub : Name) (k ksub : Nat) : Name :=
+  stub ++ dec (k - ksub + 1) ++ (if stub.getLast? = some '[' then [']'] else ['_'])
+
+/-- the names `BasicProblem` invents when nothing was read but names are asked for by the graph export
+(`cvt:writegraph`): `_x[i]`, `_sdvar[i]`, `_CON<i>_`, `_LCON<i>_`, `_OBJ<i>_` -/
+def itemNamesModel (nv ndv ncon nalg nobj : Nat) : List Name × List Name × List Name :=
+  ((List.range (nv + ndv)).map fun k =>
+      if k < nv then itemName "_x[".toList k 0 else itemName "_sdvar[".toList k nv,
+   (List.range ncon).map fun k =>
+      if k < nalg then itemName "_CON".toList k 0 else itemName "_LCON".toList k nalg,
+   (List.range nobj).map fun k => itemName "_OBJ".toList k 0)
 
 structure NamesIn where
   mode : Nat                 -- cvt:names
